@@ -18,6 +18,6 @@ def run(tier, seed):
                        "tables, lineMax, blkIndent, parentType and level are restored on exit; paragraph and lheading consult the terminator rules on every line of indentation 0..3 relative to the container (scan semantics with the "
                        "uninterpreted RuleFires predicate), so what interrupts a paragraph depends only on the line's relative indentation; StateBlock.__init__ establishes the column invariant. The law itself relates two runs of the whole block parser (a 2-safety property over all rules) and is "
                        "a relational postcondition on the real parse, checked over the tab-free line universe in quote form and list form (10 markers), nested to depth 3.")
-    rep.trusted_base = STD_TRUST
-    rep.assumptions = ["bounded: all tab-free newline-terminated documents of <= k lines over the 72-shape vocabulary"]
+    rep.trusted_base += STD_TRUST
+    rep.assumptions += ["bounded: all tab-free newline-terminated documents of <= k lines over the 72-shape vocabulary"]
     return rep
